@@ -4,13 +4,16 @@ package gorums
 // Witness search H6 (bounded): QuorumCallError.Is/Error, WrapMessage and the wire codec of the
 // REAL code. Oracle: C02 (Is compares causes), C07/C13 (a handler's error status reaches the wire
 // with its code and message; nil error = OK; plain errors = Unknown + text), C13 (decode(encode(m))
-// equals m with the right message type for requests and responses; arbitrary bytes never panic).
+// equals m with the right message type for requests and responses; arbitrary bytes never panic),
+// C04/C08 (SendMessage hands exactly its message to exactly its channel, once, or gives up with the
+// context's error - and only then - without having sent).
 
 import (
 	"context"
 	"errors"
 	"fmt"
 	"testing"
+	"time"
 
 	"github.com/relab/gorums/ordering"
 	"github.com/relab/gorums/tests/mock"
@@ -132,5 +135,84 @@ func TestGvcReplay(t *testing.T) {
 			}()
 		}
 	}
-	t.Logf("GVC-REPLAY-OK scenarios=%d bound=\"4 causes x 4 targets; 4 handler errors; 24 round trips; %d byte strings x 3 message kinds\"", count, len(frames))
+	// SendMessage
+	{
+		msg := &Message{Metadata: &ordering.Metadata{MessageID: 7}}
+		other := &Message{Metadata: &ordering.Metadata{MessageID: 8}}
+		live := context.Background()
+		cancelled, cancel := context.WithCancel(context.Background())
+		cancel()
+		expired, cancel2 := context.WithDeadline(context.Background(), time.Now().Add(-time.Second))
+		defer cancel2()
+		// room, live context
+		count++
+		c := make(chan *Message, 2)
+		if err := SendMessage(live, c, msg); err != nil || len(c) != 1 || <-c != msg {
+			t.Fatalf("GVC-REPLAY: SendMessage violates C04.\n  channel with room, live context: returned %v, the channel does not hold exactly the message", err)
+		}
+		// full channel, context over: gives up with the context's error, nothing sent
+		for _, ctx := range []context.Context{cancelled, expired} {
+			count++
+			c = make(chan *Message, 1)
+			c <- other
+			done := make(chan error, 1)
+			go func() { done <- SendMessage(ctx, c, msg) }()
+			var err error
+			select {
+			case err = <-done:
+			case <-time.After(3 * time.Second):
+				t.Fatalf("GVC-REPLAY: SendMessage violates C08.\n  full channel, context already over (%v): did not return within 3 s", ctx.Err())
+			}
+			if err == nil || err != ctx.Err() || len(c) != 1 || <-c != other {
+				t.Fatalf("GVC-REPLAY: SendMessage violates C08/C04.\n  full channel, context already over (%v): returned %v, want the context's error and nothing sent", ctx.Err(), err)
+			}
+		}
+		// unbuffered channel with a reader
+		count++
+		u := make(chan *Message)
+		got := make(chan *Message, 1)
+		go func() { got <- <-u }()
+		if err := SendMessage(live, u, msg); err != nil {
+			t.Fatalf("GVC-REPLAY: SendMessage violates C04.\n  unbuffered channel with a reader, live context: returned %v", err)
+		}
+		select {
+		case m := <-got:
+			if m != msg {
+				t.Fatalf("GVC-REPLAY: SendMessage violates C04.\n  the reader received a different message")
+			}
+		case <-time.After(3 * time.Second):
+			t.Fatalf("GVC-REPLAY: SendMessage violates C04.\n  returned nil but the reader received nothing")
+		}
+		// full channel, the context ends later: returns then, with its error, nothing sent
+		count++
+		c = make(chan *Message, 1)
+		c <- other
+		later, cancel3 := context.WithCancel(context.Background())
+		res := make(chan error, 1)
+		go func() { res <- SendMessage(later, c, msg) }()
+		select {
+		case err := <-res:
+			t.Fatalf("GVC-REPLAY: SendMessage violates C04.\n  full channel, live context: returned %v although nothing could be sent and the context had not ended", err)
+		case <-time.After(2 * time.Millisecond):
+		}
+		cancel3()
+		select {
+		case err := <-res:
+			if err != context.Canceled || len(c) != 1 || <-c != other {
+				t.Fatalf("GVC-REPLAY: SendMessage violates C08/C04.\n  full channel, context cancelled while waiting: returned %v", err)
+			}
+		case <-time.After(3 * time.Second):
+			t.Fatalf("GVC-REPLAY: SendMessage violates C08.\n  full channel: did not return within 3 s after its context was cancelled")
+		}
+		// both possible: either outcome, but a consistent one
+		for k := 0; k < 20; k++ {
+			count++
+			c = make(chan *Message, 1)
+			err := SendMessage(cancelled, c, msg)
+			if (err == nil) != (len(c) == 1) || (err != nil && err != context.Canceled) {
+				t.Fatalf("GVC-REPLAY: SendMessage violates C04/C08.\n  channel with room and a cancelled context: returned %v with %d messages in the channel", err, len(c))
+			}
+		}
+	}
+	t.Logf("GVC-REPLAY-OK scenarios=%d bound=\"4 causes x 4 targets; 4 handler errors; 24 round trips; %d byte strings x 3 message kinds; 25 SendMessage runs\"", count, len(frames))
 }
